@@ -176,6 +176,10 @@ class RealRun:
         ev = {'op': list(op), 'steps_before': self.pre.steps}
         if kind == 'train':
             self.train(ev)
+        elif kind == 'train_reset':
+            # reset_batch() between backward and step (discards what the
+            # no-hook mode has accumulated for this iteration)
+            self.train(ev, reset_mid=True)
         elif kind == 'eval':
             self.model.eval()
             x = R.batch_for(self.cfg['model'], self.cfg.get('batch', 2),
@@ -260,7 +264,7 @@ class RealRun:
         self.rec.append(ev)
         w.point(('op', idx))
 
-    def train(self, ev):
+    def train(self, ev, reset_mid=False):
         cfg = self.cfg
         scale = self._scale() if self.scale_spec is not None else None
         self.clock.i = self.it  # external state changes before the step
@@ -305,6 +309,8 @@ class RealRun:
         ev['meta_before'] = grad_meta(self.model)
         ev['params_before'] = {n: p.detach().clone() for n, p in
                                self.model.state_dict().items()}
+        if reset_mid:
+            self.pre.reset_batch()
         self.pre.step()
         ev['P'] = self.grads()
         ev['meta_after'] = grad_meta(self.model)
@@ -485,7 +491,7 @@ class RefRun:
         scale_spec = cfg.get('scale')
         it = self.it
         ev = {'op': list(op)}
-        if op[0] == 'train':
+        if op[0] in ('train', 'train_reset'):
             sc = mk_hp(scale_spec)
             scale = (sc(it) if callable(sc) else sc) \
                 if scale_spec is not None else None
@@ -524,6 +530,9 @@ class RefRun:
                         mods[nm], g if scale is None else g.to(F64) / scale)
                         for g in gs) / len(gs)
                     moments[nm] = (MA, MG)
+            if op[0] == 'train_reset' and not cfg.get('kfac', {}).get(
+                    'update_factors_in_hook', True):
+                moments = {}  # the accumulated batch was discarded
             D = {nm: R.combined_grad(mods[nm]) for nm in names}
             ev['D'] = D
             ev['raw'] = {pn: p.grad.detach().to(F64).clone()
